@@ -6,6 +6,7 @@
   sign pattern.  `sign`/`check_bracket` are the definitions regenerated from utilities.py.
 -/
 import GHEVerif.Lemmas.Search
+import GHEVerif.Lemmas.SearchNested
 
 namespace GHEVerif.C01
 open GHEVerif GHEVerif.Search
@@ -77,6 +78,33 @@ theorem bisect1D_selected_feasible (counts : List Nat) (E : Nat → Rat → Rat)
     · exact ⟨h2, Or.inl h3.1⟩
   | tooSmallCont => exact absurd rfl hne.1
   | tooBigCont => exact absurd rfl hne.2
+
+
+/-! ### nested searches (bi-rectangle, polygon-constrained: `Bisection2D`; bi-zoned: `BisectionZD`) -/
+
+/-- A field returned by `Bisection2D` is the selection of `Bisection1D.search` on its inner list,
+    so it is feasible at maximum height (or bracketed on the smallest field) unless it is a
+    `continue_if_design_unmet` escape, which needs the flag. -/
+theorem bisect2D_selected_feasible (nc : List (List Nat)) (E2 : Nat → Nat → Rat → Rat) (cfg : Cfg)
+    (l k : Nat) (hh : Rat) (tr : Trace2) (h : bisect2D nc E2 cfg = (.selected l k hh, tr)) :
+    ∃ p : Path, ((p ≠ .tooSmallCont ∧ p ≠ .tooBigCont) →
+            hh = cfg.maxH ∧ (E2 l k cfg.maxH < 0 ∨ (k = 0 ∧ E2 l 0 cfg.minH < 0 ∧ 0 < E2 l 0 cfg.maxH))) ∧
+         ((p = .tooSmallCont ∨ p = .tooBigCont) → cfg.cont = true) := by
+  obtain ⟨_, p, tr', h1⟩ := bisect2D_selected h
+  exact ⟨p, fun hne => bisect1D_selected_feasible _ _ cfg k hh p tr' h1 hne,
+    fun hp => bisect1D_escape_needs_flag _ _ cfg k hh p tr' h1 hp⟩
+
+/-- The same for the bi-zoned search (`BisectionZD.search_successive`, after the F16 repair): the
+    returned field is the selection of the 1D search of the chosen list, and the height it is left
+    at is the sized height of that field. -/
+theorem bisectZD_selected_feasible (nc : List (List Nat)) (E2 : Nat → Nat → Rat → Rat) (sz : Nat → Nat → Rat)
+    (cfg : Cfg) (l k : Nat) (hh : Rat) (tr : Trace2) (h : bisectZD nc E2 sz cfg = (.selected l k hh, tr)) :
+    hh = sz l k ∧ ∃ (p : Path) (h1 : Rat), ((p ≠ .tooSmallCont ∧ p ≠ .tooBigCont) →
+            h1 = cfg.maxH ∧ (E2 l k cfg.maxH < 0 ∨ (k = 0 ∧ E2 l 0 cfg.minH < 0 ∧ 0 < E2 l 0 cfg.maxH))) ∧
+         ((p = .tooSmallCont ∨ p = .tooBigCont) → cfg.cont = true) := by
+  obtain ⟨e, _, ⟨h1, p, tr', hs⟩, _⟩ := bisectZD_selected h
+  exact ⟨e, p, h1, fun hne => bisect1D_selected_feasible _ _ cfg k h1 p tr' hs hne,
+    fun hp => bisect1D_escape_needs_flag _ _ cfg k h1 p tr' hs hp⟩
 
 /-! ### the height root solve (`utilities.solve_root` as used by `GHE.size`) -/
 
